@@ -51,6 +51,9 @@ func refRound(a *[25]uint64, rc uint64) {
 	a[0] ^= rc
 }
 
+// one reference round by index (the step the assembly is simulated against, see engine/stubs.go)
+func refRoundN(a *[25]uint64, r int) { refRound(a, refRC[r]) }
+
 func refKeccakF1600(a *[25]uint64, rounds int) {
 	for r := 0; r < rounds; r++ {
 		refRound(a, refRC[r])
@@ -59,7 +62,7 @@ func refKeccakF1600(a *[25]uint64, rounds int) {
 
 // The permutation used by the transcripts equals the textbook Keccak-f[1600] on all 2^1600 states.
 //
-//verif:ob prop=C13,C06 name=keccakF1600_vs_FIPS202 mode=bv tags=purego
+//verif:ob prop=C13,C06 name=keccakF1600_vs_FIPS202 mode=bv tags=purego,default asmsim=internal/strobe.keccakF1600:refRoundN
 func vh_C13_keccak() {
 	var a, r [25]uint64
 	verif.AnyU64s("a", a[:])
